@@ -101,6 +101,7 @@ func Load(opt LoadOptions) (*Program, error) {
 	prog, spkgs := ssautil.AllPackages(pkgs, ssa.BuilderMode(0))
 	prog.Build()
 	p.SSA = prog
+	normaliseComparisons(prog)
 	for i, pk := range pkgs {
 		if spkgs[i] != nil {
 			if _, ok := p.Pkgs[pk.PkgPath]; ok {
@@ -228,4 +229,33 @@ func (p *Program) RealFile(pos token.Pos) string {
 		rel = ps.Filename
 	}
 	return rel
+}
+
+// normaliseComparisons puts every comparison with exactly one constant operand into the form "value OP constant"
+// (nil != err becomes err != nil, 0 < n becomes n > 0): the rules read comparisons in that one form, and the operand
+// order of a comparison carries no meaning.
+func normaliseComparisons(prog *ssa.Program) {
+	flip := map[token.Token]token.Token{token.EQL: token.EQL, token.NEQ: token.NEQ, token.LSS: token.GTR, token.GTR: token.LSS, token.LEQ: token.GEQ, token.GEQ: token.LEQ}
+	for fn := range ssautil.AllFunctions(prog) {
+		if fn.Pkg == nil || !(fn.Pkg.Pkg.Path() == modPath || strings.HasPrefix(fn.Pkg.Pkg.Path(), modPath+"/")) {
+			continue
+		}
+		for _, b := range fn.Blocks {
+			for _, in := range b.Instrs {
+				bo, ok := in.(*ssa.BinOp)
+				if !ok {
+					continue
+				}
+				op, ok := flip[bo.Op]
+				if !ok {
+					continue
+				}
+				_, cx := bo.X.(*ssa.Const)
+				_, cy := bo.Y.(*ssa.Const)
+				if cx && !cy {
+					bo.X, bo.Y, bo.Op = bo.Y, bo.X, op
+				}
+			}
+		}
+	}
 }
